@@ -759,6 +759,15 @@ def _scheduled_flag(prog, fn, pa, worlds, bounds: set, text) -> Optional[str]:
             text_tok = w.token(text.id) if isinstance(text, ast.Name) else ""
             bound_toks = {w.token(b) for b in bounds}
             good = False
+            # the nested spelling `if not flag: if has_ignore_comment(..): return text` forks the worlds instead: one in which the flag
+            # is set, one in which the test came back negative
+            for f in w.facts:
+                if f[0] == "lit" and f[2] and plain(f[1]) == p_name and p_tok in f[1]:
+                    good = True
+                if f[0] == "lit" and not f[2] and "has_ignore_comment(" in f[1] and (not text_tok or text_tok in f[1]):
+                    toks0 = set(re.findall(r"[A-Za-z_]\w*#\w+", f[1][f[1].index("has_ignore_comment("):])) - {text_tok}
+                    if not bounds or bound_toks <= toks0 or _derived_from(fn, bounds, toks0):
+                        good = True
             for f in w.facts:
                 if f[0] != "or":
                     continue
@@ -968,7 +977,7 @@ VARIANTS = [
     Variant("directive-lookup-in-a-helper", "SILENT", "core", 'def has_ignore_comment(source: str, rng: Range) -> bool:\n    pattern = re.compile(r"#\\s*pyrefact\\s*:\\s*(skip_file|ignore)")\n', '_DIRECTIVE = re.compile(r"#\\s*pyrefact\\s*:\\s*(skip_file|ignore)")\n\n\ndef get_directive(text: str):\n    found = _DIRECTIVE.search(text)\n    if found is None:\n        return None\n\n    return found.group(1)\n\n\ndef has_ignore_comment(source: str, rng: Range) -> bool:\n', extra=[("core", '        if rng & Range(line_start, line_end) and pattern.search(line):', '        if rng & Range(line_start, line_end) and get_directive(line) is not None:')]),
     Variant("skip-test-per-line-through-helper", "SILENT", "main", "    if re.search(r\"#\\s*pyrefact\\s*:\\s*skip_file\", source):",
             "    if any(_is_skip_line(line) for line in source.splitlines()):",
-            extra=[("main", "def format_code(", "_SKIP = re.compile(r\"#\\s*pyrefact\\s*:\\s*skip_file\")\n\n\ndef _is_skip_line(line: str) -> bool:\n    found = _SKIP.search(line)\n    return found is not None\n\n\ndef format_code(")]),
+            extra=[("main", "@_hand_back_code_that_is_too_deep\ndef format_code(", "_SKIP = re.compile(r\"#\\s*pyrefact\\s*:\\s*skip_file\")\n\n\ndef _is_skip_line(line: str) -> bool:\n    found = _SKIP.search(line)\n    return found is not None\n\n\n@_hand_back_code_that_is_too_deep\ndef format_code(")]),
     Variant("skip-test-reads-first-directive-only", "FIRE", "core", 'def has_ignore_comment(source: str, rng: Range) -> bool:\n    pattern = re.compile(r"#\\s*pyrefact\\s*:\\s*(skip_file|ignore)")\n', '_DIRECTIVE = re.compile(r"#\\s*pyrefact\\s*:\\s*(skip_file|ignore)")\n\n\ndef get_directive(text: str):\n    found = _DIRECTIVE.search(text)\n    if found is None:\n        return None\n\n    return found.group(1)\n\n\ndef has_ignore_comment(source: str, rng: Range) -> bool:\n', "R20.2", extra=[("core", '        if rng & Range(line_start, line_end) and pattern.search(line):', '        if rng & Range(line_start, line_end) and get_directive(line) is not None:'),
             ("main", "    if re.search(r\"#\\s*pyrefact\\s*:\\s*skip_file\", source):", "    if core.get_directive(source) == \"skip_file\":")]),
     Variant("expandtabs-before-skip-test", "FIRE", "main",
@@ -979,12 +988,12 @@ VARIANTS = [
     Variant("skip-test-removed", "FIRE", "main",
             "    if re.search(r\"#\\s*pyrefact\\s*:\\s*skip_file\", source):\n        return source\n", "", "R20.1"),
     Variant("node-path-guard-deleted", "FIRE", "processing",
-            "    if core.has_ignore_comment(source, core.Range(start, end)):\n        return source\n", "", "R20.3"),
+            "    if not scheduled and core.has_ignore_comment(source, core.Range(start, end)):\n        return source\n", "", "R20.3"),
     Variant("range-path-guard-deleted", "FIRE", "processing",
-            "        if core.has_ignore_comment(source, old):\n            return source\n", "", "R20.3"),
+            "        if not scheduled and core.has_ignore_comment(source, old):\n            return source\n", "", "R20.3"),
     Variant("guard-on-wrong-range", "FIRE", "processing",
-            "    if core.has_ignore_comment(source, core.Range(start, end)):\n        return source\n",
-            "    if core.has_ignore_comment(source, core.Range(0, 0)):\n        return source\n", "R20.3"),
+            "    if not scheduled and core.has_ignore_comment(source, core.Range(start, end)):\n        return source\n",
+            "    if not scheduled and core.has_ignore_comment(source, core.Range(0, 0)):\n        return source\n", "R20.3"),
     Variant("ignore-pattern-loses-ignore", "FIRE", "core",
             "r\"#\\s*pyrefact\\s*:\\s*(skip_file|ignore)\"", "r\"#\\s*pyrefact\\s*:\\s*(skip_file)\"", "R20.5"),
     Variant("line-offsets-without-terminators", "FIRE", "core",
@@ -1006,8 +1015,8 @@ VARIANTS = [
             "    if _SKIP.search(source):\n        return source\n",
             extra=[("main", "MAX_MODULE_PASSES = 5\n", "MAX_MODULE_PASSES = 5\n_SKIP = re.compile(r\"#\\s*pyrefact\\s*:\\s*skip_file\")\n")]),
     Variant("guard-via-local-range", "SILENT", "processing",
-            "    if core.has_ignore_comment(source, core.Range(start, end)):\n        return source\n",
-            "    node_range = core.Range(start, end)\n    if core.has_ignore_comment(source, node_range):\n        return source\n"),
+            "    if not scheduled and core.has_ignore_comment(source, core.Range(start, end)):\n        return source\n",
+            "    node_range = core.Range(start, end)\n    if not scheduled and core.has_ignore_comment(source, node_range):\n        return source\n"),
 ]
 
 META = {
